@@ -154,14 +154,21 @@ def parse_cbmc_json(path):
 
 def classify(results, obl):
     reach_fail, reach_ok, viol, unwind, nprops = [], [], [], [], 0
+    errors = []
     for r in results:
         desc = r.get("description", "")
         st = r.get("status")
         if desc.startswith("VP_REACH:"):
+            if st not in ("FAILURE", "SUCCESS"):
+                errors.append(desc)
             (reach_ok if st == "FAILURE" else reach_fail).append(desc[9:])
             continue
         nprops += 1
         if st == "SUCCESS":
+            continue
+        if st != "FAILURE":
+            # ERROR / UNKNOWN: the solver gave up (memory, time) - no verdict
+            errors.append(desc)
             continue
         loc = r.get("sourceLocation", {})
         item = {
@@ -178,7 +185,7 @@ def classify(results, obl):
             unwind.append(item)
         else:
             viol.append(item)
-    return reach_ok, reach_fail, viol, unwind, nprops
+    return reach_ok, reach_fail, viol, unwind, nprops, errors
 
 
 def sanitize(name):
@@ -198,7 +205,12 @@ def build_goto(obl, wdir):
     if p.returncode != 0 or not os.path.exists(gb):
         return None, fb, out
     # optional goto-instrument passes (e.g. --restrict-function-pointer)
-    for i, args in enumerate(obl.get("instrument", [])):
+    passes = [list(a) for a in obl.get("instrument", [])]
+    if obl.get("fp_map"):
+        r = fp_restrictions(gb, obl["fp_map"], wdir)
+        if r:
+            passes.insert(0, r)
+    for i, args in enumerate(passes):
         gb2 = os.path.join(wdir, "h.i%d.gb" % i)
         q = subprocess.run(["goto-instrument"] + list(args) + [gb, gb2], cwd=wdir,
                            stdout=subprocess.PIPE, stderr=subprocess.STDOUT)
@@ -208,6 +220,52 @@ def build_goto(obl, wdir):
             return None, fb, out + q.stdout.decode("utf-8", "replace")
         gb = gb2
     return gb, fb, out
+
+
+def fp_restrictions(gb, fp_map, wdir):
+    """CBMC resolves a call through a struct member function pointer to EVERY
+    address-taken function with a compatible signature (pointers and 64-bit
+    integers are all 'compatible'), which makes e.g. file->read_at() fan out to
+    write_at() and to unrelated callbacks.  The plan states, per member name,
+    which functions can be installed there in this harness (fp_map); this
+    routine finds all call sites through that member in the goto binary and
+    emits --restrict-function-pointer options for them."""
+    p = subprocess.run(["goto-instrument", "--show-goto-functions", gb], cwd=wdir,
+                       stdout=subprocess.PIPE, stderr=subprocess.DEVNULL)
+    txt = p.stdout.decode("utf-8", "replace")
+    funcs = set(re.findall(r"^([A-Za-z_][A-Za-z_0-9$.]*) /\* ", txt, re.M))
+    args = []
+    seen = set()
+    cur = None
+    n = 0
+    for line in txt.splitlines():
+        m = re.match(r"^([A-Za-z_][A-Za-z_0-9$.]*) /\* ", line)
+        if m:
+            cur = m.group(1)
+            n = 0
+            continue
+        if " CALL " not in line and not line.strip().startswith("CALL "):
+            continue
+        m = re.search(r"CALL (?:[^(]*? := )?\*(.*)$", line)
+        if not m:
+            continue
+        rest = m.group(1)
+        # callee expression is a dereference => function pointer call site
+        n += 1
+        mm = re.match(r"\((.*?)\)\(", rest)
+        callee = mm.group(1) if mm else rest.split("(")[0]
+        mem = re.findall(r"\.([A-Za-z_][A-Za-z_0-9]*)\)*$", callee)
+        member = mem[-1] if mem else None
+        if member is None:
+            mem = re.findall(r"([A-Za-z_][A-Za-z_0-9]*)\)*$", callee)
+            member = mem[-1] if mem else None
+        if member in fp_map:
+            targets = [t for t in fp_map[member] if t in funcs]
+            label = "%s.function_pointer_call.%d" % (cur, n)
+            if targets and label not in seen:
+                seen.add(label)
+                args += ["--restrict-function-pointer", label + "/" + ",".join(targets)]
+    return args
 
 
 def cbmc_cmd(obl, gb, extra=()):
@@ -285,7 +343,12 @@ def run_obligation(pid, obl, tier):
         res["messages"].append("no result from cbmc (rc=%s, status=%s) %s %s" %
                                (rc, status, " | ".join(msgs[-5:]), err))
         return res
-    reach_ok, reach_fail, viol, unwind, nprops = classify(results, obl)
+    reach_ok, reach_fail, viol, unwind, nprops, errors = classify(results, obl)
+    if errors:
+        res["status"] = "inconclusive"
+        res["n_props"] = nprops
+        res["messages"].append("solver returned no verdict for %d properties (%s)" % (len(errors), "; ".join(msgs[-2:])))
+        return res
     res["n_props"] = nprops
     res["reach_ok"] = reach_ok
     res["reach_missing"] = reach_fail
@@ -382,7 +445,7 @@ def native_replay(obl, bundle, values, hang_is_violation):
             f.write("%d\n" % v)
     cmd = ["gcc", "-g", "-O0", "-fsanitize=address,undefined",
            "-fno-sanitize-recover=undefined", "-fno-omit-frame-pointer",
-           "-DVP_REPLAY=1", "-w"] + inc + cpp_defs(obl)
+           "-DVP_REPLAY=1", "-w", "-ffunction-sections", "-fdata-sections", "-Wl,--gc-sections"] + inc + cpp_defs(obl)
     cmd += src_list(obl)
     cmd += [os.path.join(VERIF, s) for s in obl.get("replay_stubs", [])]
     cmd += [os.path.join(VERIF, "stubs/replay_nondet.c"), "-o", exe]
@@ -411,6 +474,8 @@ def native_replay(obl, bundle, values, hang_is_violation):
         pass
     if r.returncode == 77:
         return "diverged", txt
+    if r.returncode in (126, 127):
+        return "build_failed", txt
     if r.returncode == 0:
         return "not_reproduced", txt
     return "confirmed", txt
@@ -486,15 +551,27 @@ def run_property(pid, tier, only=None, jobs=None):
         if r["status"] != "fail":
             broken.append((o, r))
             continue
+        # one report per source line (a single defect usually trips many of
+        # CBMC's per-dereference checks at the same line)
+        groups = {}
         for v in r["violations"]:
             k = match_known(known, o["name"], v)
             if k:
                 known_hit.append((o, v, k))
-            else:
-                violations.append((o, r, v))
+                continue
+            key = (v["file"], v["line"])
+            g = groups.setdefault(key, [])
+            g.append(v)
+        for key, g in groups.items():
+            g.sort(key=lambda v: (0 if v["description"].startswith("VP_PROP:") else 1))
+            rep = dict(g[0])
+            rep["also_failed_at_this_line"] = [x["description"] for x in g[1:]][:20]
+            rep["count_at_line"] = len(g)
+            violations.append((o, r, rep))
 
     # replay (at most 3 per obligation to bound the time; all are reported)
     replay_root = os.path.join(VERIF, "replay", pid)
+    shutil.rmtree(replay_root, ignore_errors=True)
     reported = []
     per_obl = {}
     for o, r, v in violations:
@@ -527,13 +604,19 @@ def run_property(pid, tier, only=None, jobs=None):
             json.dump(info, f, indent=1)
         reported.append((o, v, bundle, info["replay_status"]))
 
+    printed = set()
     for o, v, k in known_hit:
+        key = (o["name"], k["text"])
+        if key in printed:
+            continue
+        printed.add(key)
         print("KNOWN-FINDING: property=%s obligation=%s %s [%s]" % (
             pid, o["name"], k["text"], v["description"]))
     for o, v, bundle, st in reported:
-        print("VIOLATION property=%s replay=%s obligation=%s replay_status=%s :: %s (%s:%s %s)" % (
+        print("VIOLATION property=%s replay=%s obligation=%s replay_status=%s :: %s (%s:%s %s)%s" % (
             pid, bundle, o["name"], st, v["description"], os.path.basename(v["file"]),
-            v["line"], v["function"]))
+            v["line"], v["function"],
+            (" [+%d more failed checks at this line]" % (v["count_at_line"] - 1)) if v.get("count_at_line", 1) > 1 else ""))
     for o, r in broken:
         print("BROKEN-CHECK property=%s obligation=%s status=%s %s" % (
             pid, o["name"], r["status"], "; ".join(r["messages"])[:500]))
